@@ -127,8 +127,13 @@ void checkPassive(const RunData& rd, hz::RunResult* res) {
   std::vector<ref::RxSym> syms = buildRxSyms(rd, &readTimes, &tolerant);
   unsigned hiBase = rd.hc.receiveTimeout > 51 ? rd.hc.receiveTimeout : 51;
   ref::PassiveParser parser(static_cast<int64_t>(rd.hc.receiveTimeout) * MS,
-                            static_cast<int64_t>(hiBase + 10 + rd.hc.extraLatency + 8) * MS);
+                            static_cast<int64_t>(hiBase + 10 + rd.hc.extraLatency + 8) * MS, rd.hc.own, rd.hc.answer);
   std::vector<ref::Expected> exp = parser.parse(syms);
+  // another participant using ebusd's own master address while ebusd itself has requests to send is an address conflict:
+  // ebusd cannot tell that QQ from the echo of its own arbitration symbol; such telegrams are not decided
+  if (!rd.reqs.empty()) {
+    for (auto& e : exp) if (!e.own && !e.tg.master.empty() && e.tg.master[0] == rd.hc.own) { e.either = true; res->counters["c01.address_conflict_either"]++; }
+  }
   struct Act { ref::Telegram tg; int64_t t; };
   std::vector<Act> act;
   for (const Ev& e : rd.hist.evs) {
